@@ -52,6 +52,17 @@ class RefDir:
                       items=None, money=True)
 
     # ---- state changes
+    def related(self, a, b):
+        """Is one of the types declared as (indirect) sub-class of the
+        other?"""
+        def ancestors(t):
+            out = []
+            while t is not None and t in self.types:
+                out.append(t)
+                t = self.types[t].get('parent')
+            return out
+        return a in ancestors(b) or b in ancestors(a)
+
     def add_type(self, name, base, ref_sym, quantum, items, money=False,
                  catalogue=False):
         if base:
@@ -229,6 +240,16 @@ def fresh_symbol(model: RefDir, prefix, n, r):
     return base
 
 
+def parent_type(model: RefDir, salt):
+    """One declaration in six is written as sub-class of a type declared
+    earlier (not of Money: a type derived from Money has no unit class of
+    its own in this library)."""
+    if salt % 6:
+        return None
+    cands = [t for t in model.order if not model.types[t]['money']]
+    return _pick(cands, salt // 6)
+
+
 def resolve(model: RefDir, op):
     """Deterministically turn an intent (kind, r0, r1, ...) into a concrete
     action for the current model state, or None (recorded no-op).
@@ -244,7 +265,7 @@ def resolve(model: RefDir, op):
         return {'a': 'base_type', 'name': f'T{n}',
                 'clsname': class_name(model, f'T{n}', r[3]),
                 'ref_sym': fresh_symbol(model, 'r', n, deco) if ref else None,
-                'quantum': q,
+                'quantum': q, 'parent': parent_type(model, r[3] + r[1]),
                 'expect': 'accept'}
     if kind in ('derived_type', 'dup_dimension'):
         cands = [t for t in types]
@@ -291,6 +312,7 @@ def resolve(model: RefDir, op):
             expect = 'accept'
         return {'a': 'derived_type', 'name': f'D{n}',
                 'clsname': class_name(model, f'D{n}', r[7]),
+                'parent': parent_type(model, r[7] + r[9]),
                 'items': items,
                 'style': r[11] % 3, 'ref_sym': ref_sym, 'auto_ref': all_ref
                 and ref_sym is None, 'quantum': quantum, 'expect': expect,
@@ -343,6 +365,9 @@ def resolve(model: RefDir, op):
         t = model.types[tn]
         parent = _pick(t['units'][1:], r[1])
         target = _pick(t['units'], r[2]) if r[3] % 2 else t['units'][0]
+        if model.units[target]['factor'] is None or \
+                model.units[parent]['factor'] is None:
+            return None
         k = model.units[target]['factor'] / model.units[parent]['factor']
         return {'a': 'scaled_unit', 'type': tn, 'sym': f'u{n}',
                 'parent': parent, 'k': {'t': 'frac', 'v': str(k)},
@@ -402,6 +427,28 @@ def resolve(model: RefDir, op):
                 return None
             units.append(u)
         sym = fresh_symbol(model, 'u', n, deco) if r[6] % 3 else None
+        if kind == 'derive_unit' and r[9] % 2 == 0 and t['ref'] is not None:
+            # another route to the scale of a unit the type has already
+            # (dam/s and cm/ms): same normal form, other units, other text
+            import itertools
+            have = {model.units[s]['factor'] for s in t['units']}
+            pools = [model.types[bn]['units'][:6] for bn, _e in t['items']]
+            found = []
+            for combo in itertools.islice(itertools.product(*pools), 400):
+                if list(combo) == units:
+                    continue
+                try:
+                    f = model.term_factor(
+                        [(u, e) for u, (_b, e) in zip(combo, t['items'])])
+                except Exception:       # noqa
+                    continue
+                if f in have:
+                    found.append(list(combo))
+            alias = _pick(found, r[10])
+            if alias is not None:
+                units = alias
+                if r[11] % 3:
+                    sym = None      # ... under a generated symbol
         if kind == 'derive_unit':
             return {'a': 'derive_unit', 'type': tn, 'units': units,
                     'sym': sym, 'expect': 'accept' if sym else 'follow'}
@@ -520,7 +567,11 @@ def resolve(model: RefDir, op):
         tn = _pick(model.types_with_ref(), r[0])
         if tn is None:
             return None
-        others = [s for s in model.uorder if model.units[s]['type'] != tn]
+        # (between a type and a type declared as its sub-class the
+        # statement is silent: to Python a quantity of the one is a
+        # quantity of the other)
+        others = [s for s in model.uorder if model.units[s]['type'] != tn
+                  and not model.related(model.units[s]['type'], tn)]
         o = _pick(others, r[1])
         if o is None:
             return None
@@ -623,6 +674,7 @@ def apply(model: RefDir, act, info=None):
         q = Fraction(act['quantum']) if act['quantum'] else None
         model.add_type(act['name'], True, act['ref_sym'], q, None)
         model.types[act['name']]['clsname'] = act.get('clsname')
+        model.types[act['name']]['parent'] = act.get('parent')
     elif a == 'derived_type':
         q = Fraction(act['quantum']) if act['quantum'] else None
         ref = act['ref_sym'] if act['ref_sym'] is not None \
@@ -630,6 +682,7 @@ def apply(model: RefDir, act, info=None):
         model.add_type(act['name'], False, ref, q,
                        [tuple(i) for i in act['items']])
         model.types[act['name']]['clsname'] = act.get('clsname')
+        model.types[act['name']]['parent'] = act.get('parent')
     elif a == 'scaled_unit':
         p = model.units[act['parent']]
         f = p['factor'] * num_value(act['k'])
@@ -692,6 +745,13 @@ class Env:
         self.Quantity = Quantity
         self.shared_ns = {'__doc__': 'declared by the simulator'}
         self.terms = {}
+
+    def bases(self, act):
+        """`class Altitude(Length)`: a type may be declared as sub-class
+        of a declared type; it is a type of its own all the same."""
+        p = act.get('parent')
+        return (self.types[p],) if p and p in self.types else \
+            (self.Quantity,)
 
     def namespace(self, name):
         """The class namespace handed to the metaclass: a fresh dict, or -
@@ -783,7 +843,7 @@ def perform(env: Env, act):
             if act['quantum'] is not None:
                 kw['quantum'] = lib_quantum(act['quantum'], len(act['name']))
             cls = QuantityMeta(act.get('clsname') or act['name'],
-                               (Quantity,), env.namespace(act['name']),
+                               env.bases(act), env.namespace(act['name']),
                                **kw)
             env.types[act['name']] = cls
             if cls.ref_unit is not None:
@@ -800,7 +860,7 @@ def perform(env: Env, act):
             if act['quantum'] is not None:
                 kw['quantum'] = lib_quantum(act['quantum'], len(act['name']))
             cls = QuantityMeta(act.get('clsname') or act['name'],
-                               (Quantity,), env.namespace(act['name']),
+                               env.bases(act), env.namespace(act['name']),
                                **kw)
             env.types[act['name']] = cls
             info = {}
